@@ -7,6 +7,7 @@ package vfkit
 
 import (
 	"bufio"
+	"bytes"
 	"fmt"
 	"io"
 	"net"
@@ -178,7 +179,27 @@ func (r *FakeRedis) serve(c net.Conn) {
 		r.mu.Unlock()
 	}()
 	br := bufio.NewReaderSize(c, 64<<10)
-	bw := bufio.NewWriterSize(c, 64<<10)
+	// Replies leave in the order of the commands (the protocol pipelines), each not before its own time: Delay is latency,
+	// not service time - commands that arrive together are answered together, Delay later.
+	type pending struct {
+		at time.Time
+		b  []byte
+	}
+	outq := make(chan pending, 8192)
+	defer close(outq)
+	go func() {
+		for p := range outq {
+			if d := time.Until(p.at); d > 0 {
+				time.Sleep(d)
+			}
+			if _, err := c.Write(p.b); err != nil {
+				c.Close()
+				for range outq {
+				}
+				return
+			}
+		}
+	}()
 	for {
 		args, err := readRespCommand(br)
 		if err != nil || len(args) == 0 {
@@ -187,6 +208,8 @@ func (r *FakeRedis) serve(c net.Conn) {
 		if r.Down.Load() {
 			return
 		}
+		var bw bytes.Buffer
+		var delay time.Duration
 		cmd := strings.ToUpper(string(args[0]))
 		switch cmd {
 		case "HELLO":
@@ -203,10 +226,7 @@ func (r *FakeRedis) serve(c net.Conn) {
 				bw.WriteString("-ERR wrong number of arguments for 'get' command\r\n")
 				break
 			}
-			if d := r.Delay.Load(); d > 0 {
-				bw.Flush()
-				time.Sleep(time.Duration(d))
-			}
+			delay = time.Duration(r.Delay.Load())
 			now := time.Now()
 			r.mu.Lock()
 			e, ok := r.data[string(args[1])]
@@ -223,7 +243,7 @@ func (r *FakeRedis) serve(c net.Conn) {
 			r.mu.Unlock()
 			if ok {
 				r.Hits.Add(1)
-				fmt.Fprintf(bw, "$%d\r\n", len(e.v))
+				fmt.Fprintf(&bw, "$%d\r\n", len(e.v))
 				bw.Write(e.v)
 				bw.WriteString("\r\n")
 			} else {
@@ -264,10 +284,7 @@ func (r *FakeRedis) serve(c net.Conn) {
 				bw.WriteString("-ERR syntax error\r\n")
 				break
 			}
-			if d := r.Delay.Load(); d > 0 {
-				bw.Flush()
-				time.Sleep(time.Duration(d))
-			}
+			delay = time.Duration(r.Delay.Load())
 			now := time.Now()
 			op.At = now
 			r.mu.Lock()
@@ -296,12 +313,12 @@ func (r *FakeRedis) serve(c net.Conn) {
 				bw.WriteString("_\r\n")
 			}
 		default:
-			fmt.Fprintf(bw, "-ERR unknown command '%s'\r\n", cmd)
+			fmt.Fprintf(&bw, "-ERR unknown command '%s'\r\n", cmd)
 		}
-		if br.Buffered() == 0 {
-			if bw.Flush() != nil {
-				return
-			}
+		select {
+		case outq <- pending{time.Now().Add(delay), append([]byte(nil), bw.Bytes()...)}:
+		default:
+			return // a client that pipelines 8192 commands without reading: hang up
 		}
 	}
 }
